@@ -12,6 +12,11 @@
                                  generate_user_intent_and_bot_action, generate_flow (from the completion on),
                                  GenerateValueAction incl. the prompt-line removal
     actions/llm/utils.py        escape_flow_name with the interpreter's Unicode `\w` / `\d` classes (generated tables)
+  Phase 4:
+    colang/v1_0/runtime/runtime.py   _process_start_flow with its try/except (`processStartFlowE`), the `while True` loop of
+                                 generate_events (`genLoop`), both as they are and as repaired by
+                                 fixes/C17-v1-flow-error-ends-turn.diff (`processStartFlowR`, `stepR`, `genLoopR`)
+    actions/v2_x/generation.py  the `literal_eval` wrapper at the end of generate_value (`generateValueV2`, repaired `…R`)
 -/
 import NemoVerif.Models.LlmText
 import NemoVerif.Generated.C17Tables
@@ -41,6 +46,7 @@ inductive Ev where
   | startFlow (body : Str)
   | listen
   | step (n : Nat)     -- an event computed by `compute_next_steps` for the started flow (opaque)
+  | hidePrevTurn       -- `{"type": "hide_prev_turn"}`: last event of the internal-error result
   deriving Repr, DecidableEq
 
 /-- the `while True: try: parse("\n".join(lines)); break / except: … lines = lines[:-1]` loop; `n` = number of lines kept -/
@@ -74,6 +80,134 @@ def multiStep (parsesTop parsesFlow : Str → Bool) (nextSteps : Str → List Ev
   match multiStepNextStep parsesTop p out with
   | .startFlow body => .startFlow body :: orListen (processStartFlow parsesFlow nextSteps flowId body)
   | e => [e]
+
+/-! ## multi-step generation with the try/except structure explicit (phase 4)
+
+`parse_colang_file` is an ORACLE that may do anything: raise an exception of any kind `ε`, or return any list of flow ids.
+`compute_next_steps` (and, for later iterations, whatever `generate_events` runs: actions, flow sliding) is an oracle that may
+raise an exception of kind `δ` or return any list of events. -/
+
+abbrev ParseOracle (ε : Type) := Str → Except ε (List Str)
+
+/-- the validation parse inside `generate_next_step` (`try: parse_colang_file(...) except Exception: <drop the last line>`):
+    only "raised or not" is observed -/
+def parsesTopOf {ε : Type} (parse : ParseOracle ε) (s : Str) : Bool :=
+  match parse s with
+  | .ok _ => true
+  | .error _ => false
+
+/-- `len(parsed_data["flows"]) != 1 or parsed_data["flows"][0]["id"] != flow_id` (negated) -/
+def oneFlowWithId (flowId : Str) (flows : List Str) : Bool :=
+  match flows with
+  | [f] => f == flowId
+  | _ => false
+
+/-- how the `try:` block of `_process_start_flow` ends -/
+inductive TryOutcome (ε : Type) where
+  | passed
+  | parserRaised (e : ε)
+  | valueError          -- `raise ValueError("Expected exactly one dynamic flow.")`
+
+def processStartFlowTry {ε : Type} (parse : ParseOracle ε) (flowId src : Str) : TryOutcome ε :=
+  match parse src with
+  | .error e => .parserRaised e
+  | .ok flows => if oneFlowWithId flowId flows then .passed else .valueError
+
+/-- `_process_start_flow` (after /repo a5f1c81): `except Exception` turns EVERY outcome of the try block other than success
+    into the fallback `BotIntent general response`; `_compute_next_steps` is called outside the `try`. -/
+def processStartFlowE {ε δ : Type} (parse : ParseOracle ε) (nextSteps : Str → Except δ (List Ev)) (flowId body : Str) :
+    Except δ (List Ev) :=
+  let src := dynamicFlowSource flowId body
+  match processStartFlowTry parse flowId src with
+  | .passed => nextSteps src
+  | _ => .ok [.botIntent generalResponse]
+
+/-- what can leave `generate_events` -/
+inductive GenErr (δ : Type) where
+  | raised (e : δ)          -- an exception of the step function (compute_next_steps / an action dispatcher failure)
+  | tooManyEvents           -- `raise Exception("Too many events.")`
+  deriving Repr, DecidableEq
+
+/-- last element (`next_events[-1]`) -/
+def lastEv : List Ev → Option Ev
+  | [] => none
+  | [e] => some e
+  | _ :: es => lastEv es
+
+/-- the `while True` loop of `generate_events`.  `step events` = the branch chosen on `events[-1]`.
+    Every iteration appends at least one event, the loop raises once more than 100 were appended: `fuel` = 102 suffices
+    (`genLoop_fuel_irrelevant`), the `0` case is never reached from `generateEvents`. -/
+def genLoop {δ : Type} (step : List Ev → Except δ (List Ev)) : Nat → List Ev → List Ev → Except (GenErr δ) (List Ev)
+  | 0, _, _ => .error .tooManyEvents
+  | fuel + 1, events, newEvents =>
+    match step events with
+    | .error e => .error (.raised e)
+    | .ok next0 =>
+      let next := orListen next0
+      let newEvents' := newEvents ++ next
+      if lastEv next == some .listen then .ok newEvents'
+      else if newEvents'.length > 100 then .error .tooManyEvents
+      else genLoop step fuel (events ++ next) newEvents'
+
+def generateEvents {δ : Type} (step : List Ev → Except δ (List Ev)) (events : List Ev) : Except (GenErr δ) (List Ev) :=
+  genLoop step 102 events []
+
+/-- the step function of a multi-step turn: `start_flow` goes to `_process_start_flow`, everything else to `cont` -/
+def stepMS {ε δ : Type} (parse : ParseOracle ε) (nextSteps : Str → Except δ (List Ev)) (cont : List Ev → Except δ (List Ev))
+    (flowId : Str) (events : List Ev) : Except δ (List Ev) :=
+  match lastEv events with
+  | some (.startFlow body) => processStartFlowE parse nextSteps flowId body
+  | _ => cont events
+
+/-- the multi-step turn from the completion of the next-step call on: the event returned by `generate_next_step`
+    (validated with the raising parser) is appended and `generate_events` continues from it -/
+def multiStepTurn {ε δ : Type} (parse : ParseOracle ε) (nextSteps : Str → Except δ (List Ev)) (cont : List Ev → Except δ (List Ev))
+    (p : Parser) (flowId out : Str) (history : List Ev) : Except (GenErr δ) (List Ev) :=
+  generateEvents (stepMS parse nextSteps cont flowId) (history ++ [multiStepNextStep (parsesTopOf parse) p out])
+
+/-! ### the REPAIRED runtime (fixes/C17-v1-flow-error-ends-turn.diff): an exception of `_compute_next_steps` and the
+100-event safety valve end the turn with the internal-error events instead of leaving `generate_events` -/
+
+/-- `_internal_error_action_result(...).events`: BotIntent, StartUtteranceBotAction (opaque), hide_prev_turn -/
+def internalErrorEvents : List Ev := [.botIntent (lit "inform internal error occurred"), .step 0, .hidePrevTurn]
+
+def processStartFlowR {ε δ : Type} (parse : ParseOracle ε) (nextSteps : Str → Except δ (List Ev)) (flowId body : Str) : List Ev :=
+  let src := dynamicFlowSource flowId body
+  match processStartFlowTry parse flowId src with
+  | .passed =>
+    match nextSteps src with
+    | .ok l => l
+    | .error _ => internalErrorEvents
+  | _ => [.botIntent generalResponse]
+
+/-- one iteration of the repaired loop.  `act events = some l`: the last event is a `StartInternalSystemAction` and
+    `_process_start_action` (which contains every failure of the action itself) returned `l`; `cont` = `_compute_next_steps`,
+    which may raise anything. -/
+def stepR {ε δ : Type} (parse : ParseOracle ε) (nextSteps : Str → Except δ (List Ev)) (cont : List Ev → Except δ (List Ev))
+    (act : List Ev → Option (List Ev)) (flowId : Str) (events : List Ev) : List Ev :=
+  match lastEv events with
+  | some (.startFlow body) => processStartFlowR parse nextSteps flowId body
+  | some .hidePrevTurn => [.listen]
+  | _ =>
+    match act events with
+    | some l => l
+    | none =>
+      match cont events with
+      | .ok l => l
+      | .error _ => internalErrorEvents
+
+def genLoopR (step : List Ev → List Ev) : Nat → List Ev → List Ev → List Ev
+  | 0, _, newEvents => newEvents ++ (internalErrorEvents ++ [.listen])
+  | fuel + 1, events, newEvents =>
+    let next := orListen (step events)
+    let newEvents' := newEvents ++ next
+    if lastEv next == some .listen then newEvents'
+    else if newEvents'.length > 100 then newEvents' ++ (internalErrorEvents ++ [.listen])
+    else genLoopR step fuel (events ++ next) newEvents'
+
+def multiStepTurnR {ε δ : Type} (parse : ParseOracle ε) (nextSteps : Str → Except δ (List Ev)) (cont : List Ev → Except δ (List Ev))
+    (act : List Ev → Option (List Ev)) (p : Parser) (flowId out : Str) (history : List Ev) : List Ev :=
+  genLoopR (stepR parse nextSteps cont act flowId) 102 (history ++ [multiStepNextStep (parsesTopOf parse) p out]) []
 
 /-! ## single-call mode: how the pre-computed events are consumed -/
 
@@ -237,6 +371,51 @@ def postValueV2 (p : Parser) (lastPromptLine out : Str) : Except PyErr Str :=
   (postValue p out).map (fun v => strip (pyReplace lastPromptLine [] v))
 
 /-! ## escape_flow_name with the interpreter's Unicode classes -/
+
+/-! ### `literal_eval` as an oracle; the wrapper of 2.x `GenerateValueAction` (phase 4) -/
+
+/-- the Python values `ast.literal_eval` can return -/
+inductive Lit where
+  | none | bool (b : Bool) | int (i : Int) | float (repr : Str) | str (s : Str)
+  | bytes (s : Str) | complex (repr : Str) | ellipsis
+  | list (l : List Lit) | tuple (l : List Lit) | set (l : List Lit) | dict (kvs : List (Lit × Lit))
+
+mutual
+/-- `_is_plain_value` of the repair (fixes/C17-v2-generated-value-plain.diff) -/
+def Lit.isPlain : Lit → Bool
+  | .none | .bool _ | .int _ | .float _ | .str _ => true
+  | .bytes _ | .complex _ | .ellipsis => false
+  | .list l | .tuple l | .set l => Lit.allPlain l
+  | .dict kvs => Lit.allPlainKV kvs
+def Lit.allPlain : List Lit → Bool
+  | [] => true
+  | x :: xs => x.isPlain && Lit.allPlain xs
+def Lit.allPlainKV : List (Lit × Lit) → Bool
+  | [] => true
+  | (k, v) :: xs => k.isPlain && v.isPlain && Lit.allPlainKV xs
+end
+
+inductive GenValueErr where
+  | py (e : PyErr)                     -- an exception of the text post-processing (never happens: `postValueV2_total`)
+  | invalidLlmResponse (value : Str)   -- `raise Exception(f"Invalid LLM response: `{value}`")`
+
+/-- the tail of 2.x `generate_value` AS IT IS: `try: return literal_eval(value) except Exception: raise Exception("Invalid …")` -/
+def generateValueV2 {ε : Type} (literalEval : Str → Except ε Lit) (p : Parser) (lastPromptLine out : Str) : Except GenValueErr Lit :=
+  match postValueV2 p lastPromptLine out with
+  | .error e => .error (.py e)
+  | .ok v =>
+    match literalEval v with
+    | .error _ => .error (.invalidLlmResponse v)
+    | .ok x => .ok x
+
+/-- … and REPAIRED: a literal that is not plain data is an invalid LLM response as well -/
+def generateValueV2R {ε : Type} (literalEval : Str → Except ε Lit) (p : Parser) (lastPromptLine out : Str) : Except GenValueErr Lit :=
+  match postValueV2 p lastPromptLine out with
+  | .error e => .error (.py e)
+  | .ok v =>
+    match literalEval v with
+    | .error _ => .error (.invalidLlmResponse v)
+    | .ok x => if x.isPlain then .ok x else .error (.invalidLlmResponse v)
 
 def inRanges (rs : List (Nat × Nat)) (c : Char) : Bool := rs.any (fun r => r.1 ≤ c.toNat && c.toNat ≤ r.2)
 def isReWord (c : Char) : Bool := inRanges NemoVerif.Generated.C17Tables.wordRanges c
